@@ -250,4 +250,21 @@ example :
       .notify 1 7 11, .poll, .store 11 7, .poll, .poll, .poll]
     getPool s 11 = .ok [0, 1] ∧ s.subjectiveHead = some 11 ∧ s.pendingEvents = [] := by decide
 
+/-- the hypotheses of `get_pool_never_panics` / `offered_spec` are satisfiable: the harness's plain chain
+    (`dataHash h = 1000 + h`) is injective, and the history above only stores such headers when its
+    hashes are renamed accordingly -/
+example : InjP (fun h x => x = 1000 + h) := by
+  intro h1 x1 h2 x2 e1 e2
+  subst e1; subst e2
+  omega
+
+example : ∀ e ∈ [Event.store 10 1010, .poll, .notify 0 1011 11, .store 11 1011, .poll, .poll],
+    EvP (fun h x => x = 1000 + h) e := by
+  intro e he
+  simp only [List.mem_cons, List.not_mem_nil, or_false] at he
+  rcases he with rfl | rfl | rfl | rfl | rfl | rfl <;> simp [EvP]
+
+example : getPool (run init [Event.store 10 1010, .poll, .notify 0 1011 11, .store 11 1011, .poll, .poll]) 11
+    = .ok [0] := by decide
+
 end Lumina.Props.C40
